@@ -472,6 +472,7 @@ func Run(r *core.Run) {
 	evals += int(atomic.LoadInt64(&c.evals))
 
 	runSensitivity(r)
+	protocolReplay(r)
 	r.Set("evaluations", int(r.Get("kind_component")+r.Get("kind_point")+r.Get("kind_statement")+r.Get("kind_statement-point")+r.Get("kind_session")+r.Get("kind_shift")+r.Get("sensitivity_cases")))
 	r.Set("evaluations_counted_in_jobs", evals)
 	r.Set("distinct_nontrivial", r.NDistinct("cases"))
